@@ -233,6 +233,7 @@ func RunLint(w *World, c *Chooser, o RunOpts) *LintResult {
 	simrt.ResetChannels()
 	if t, ok := w.Tools.(*Tools); ok && t != nil {
 		t.busySeen = false
+		t.floodSeen = nil
 		t.gone = o.ToolMoves == 1
 	}
 	res.K = kern.Run(cfg, func() {
